@@ -36,7 +36,9 @@ META = {
                    'own loader at a top-level field); the harness.'),
     'rule': ('class models: every leaf type x every container context at depth 1, every ordered pair of contexts at depth 2 '
              '(rotating leaf), a sample of depth-3 compositions, random models, recursive / mutually recursive classes, '
-             'key cases (as-is, explicit, AUTO) with the matching dump transform; one or two conforming instances each. '
+             'key cases (as-is, explicit, AUTO x every dump transform) with canonical AND mixedCase / digit / upper-run field names; '
+             'Unions and Literals as members of sibling NamedTuple / TypedDict / dataclass types within one field and below '
+             'field-level Unions; Union[None, T]; one to three conforming instances each. '
              'A case is non-trivial when the field annotation has depth >= 2 or uses a helper-compiled type; '
              'distinct = distinct (annotation, key case) / distinct document.'),
     'trusted_base': ['model coq/model/V1Gen.v transcribes get_string_for_annotation and setup_recursive_safe_function',
